@@ -198,7 +198,7 @@ package rapidcore
 // idle / not started, then exactly one DONE is sent; Reset itself returns only after that DONE and releases the reservation
 //@ event ResetDoneSent = send rapidcore.Server.ResetDoneChan
 //@ event ResetDoneSeen = recv rapidcore.Server.ResetDoneChan
-//@ event ResetWorkerStarted = call rapidcore.(*Server).Reset$1
+//@ event ResetWorkerStarted = go rapidcore.(*Server).Reset$1
 //@ event SandboxReset = call interop.(SandboxContext).Reset
 //@ event ServerCleared = call rapidcore.(*Server).Clear
 //@ event RapidHandleReset = call interop.(RapidContext).HandleReset
